@@ -21,7 +21,7 @@ for i in range(1, 21):
 
 ROWS = {
  "C01": ("EndToEnd.newHash_then_check_⟨S⟩ (∀ request: the string NewHash returns verifies; Key opaque), newHash_ok/total_⟨S⟩, newHash_empty_iff_md5/des, generated_salt_accepted, KDF totality (KdfProps.*_total_gen), C07.builtins_registered",
-         "T: constants, shapes, guards, registrations, and the scheme pipeline itself (FlowModel: the regenerated flow IR evaluates to Scheme.check/params/newHash) · H: codec (KDF glue is regenerated: KdfIR/KdfIR2 *_key_tail_ir_eq_derive)",
+         "T: constants, shapes, guards, registrations, and the scheme pipeline itself (FlowModel: the regenerated flow IR evaluates to Scheme.check/params/newHash) (codec and KDF glue are regenerated too: TypeInfoIR/CodecIR/CodecIRU3, KdfIR/KdfIR2 *_key_tail_ir_eq_derive)",
          "scheme (NewHash→Check→crypt.Check byte-for-byte under scripted entropy; BSDi integer coding; cost at the exported bound; unicode / ill-formed UTF-8 passwords for NT hash)",
          "KDF bodies and codec tied by correspondence"),
  "C02": ("C02.check_ok_iff (nil ⇔ Key's result re-encodes to the stored digest), error-return theorems, tampered_digest_never_ok; for EVERY scheme the documented password equivalence as a predicate, 'equivalent ⇒ same verdict' and 'both verify ⇒ equivalent ∨ a named collision of the primitive' (KdfProps.*_absorbs, C02b.des/desext/bcrypt/nthash/argon2_check_absorbs); desext_twin_checks, bcryptEquiv_coarser (the algorithm's equivalence is coarser than the wording: F16, F17)",
@@ -36,7 +36,7 @@ ROWS = {
  "C05": ("totality of every model function (structural/fuel recursion), parser never stores nil and never returns an empty group, KDF totality, alphabet indices < 64, C16Decode.decode_never_panics",
          "T+H", "kdf + classify + parse + dispatch + b64 + stream + codec (outcome class incl. panic/timeout under recover + watchdog; bytes ≥ 0x80; lanes ≥ 64; a process-killing crash is reported with the pending operation)", "Go-side panics inside reflect/stdlib for inputs the model accepts are only sampled"),
  "C06": ("Accept.unmarshal_eq_grammar_⟨S⟩ (Unmarshal accepts h with fields out ⇔ the independent recogniser Spec/Grammar.lean accepts h and reads those fields — all ten layouts, all strings), mismatch_only_when_wellformed, params_iff_unmarshal, C10.canonical_⟨S⟩, C14.guards_iff_accepts_⟨S⟩",
-         "T: shapes, guards, pipeline (FlowModel) · H: codec",
+         "T: shapes, guards, pipeline (FlowModel), Unmarshal (CodecIRU3.unmarshal_eq_model, closed instances for the scheme structs)",
          "classify (every edit at distance 1, splices, wrap-around numbers, duplicated group members, last-symbol sweep, explicit versions, short strings); a class disagreement is a concrete misclassified string",
          "arbitrary struct types are C10/C20's; F9"),
  "C07": ("dispatcher refines a last-writer-wins map (check_refines_registry), prefix rule = lexer's prefix (prefixOf_none_iff_parse_error), builtins_registered / registrations_only_in_init over regenerated facts",
@@ -48,12 +48,12 @@ ROWS = {
          "T: processBlocks with its go/WaitGroup pattern as a task/join node (Argon2IR.processBlocks_ir_eq_model, processSegment_ir_eq_model), indexAlpha, goroutine-structure facts",
          "purego-race:argonsched (GOMAXPROCS 1,2,3,16 + noise goroutines, keys = sequential model, goroutine count), argon", "that the go/Wait syntax has the modelled meaning is runtime behaviour (observed)"),
  "C10": ("C10General.roundtrip_L6 / roundtrip_general and TiWf.roundtrip_of_typeInfoOf: for an ARBITRARY struct type that getTypeInfo accepts (tiWf is proved for everything typeInfoOf builds from supported field types) and a value inside the explicit decidable hypothesis (Unambiguous ∧ groupsSeparated; typed ∧ Representable ∧ lastTextOk ∧ noSteal) Unmarshal(Marshal v) = v — params, inline, codecs, groups, omitempty, trailing optionals; needs_* (each clause necessary); strconv round trips; parse∘render; roundtrip_/canonical_⟨S⟩ for the ten shipped layouts",
-         "T: shapes, and the type-info layer (TypeInfoIR: getRawTypeInfo with its tag loop, field, normalize, cold getTypeInfo regenerated = fieldOpts/rawFields/resolveParam/normalizeLoop/typeInfoOf) and the Marshal side (CodecIR: Marshal, marshalValue, marshal, indirect, isEmpty regenerated = Codec.marshal, linked to the regenerated getTypeInfo) and most of the Unmarshal side (CodecIRU/U2: unmarshal on a value or prefix node = fieldText + storeValue for every field kind; the field loop = loopFields without grouped params; the end checks) · H: the grouped-param clause of the Unmarshal loop and its top-level assembly",
+         "T: shapes, and the type-info layer (TypeInfoIR: getRawTypeInfo with its tag loop, field, normalize, cold getTypeInfo regenerated = fieldOpts/rawFields/resolveParam/normalizeLoop/typeInfoOf) and the Marshal side (CodecIR: Marshal, marshalValue, marshal, indirect, isEmpty regenerated = Codec.marshal, linked to the regenerated getTypeInfo) and the Unmarshal side (CodecIRU/U2/U3: unmarshal_eq_model — the whole regenerated Unmarshal, prologue, HashPrefix, field loop with grouped params, end checks = Codec.unmarshal + finalVals; unmarshal_eq_model_typeInfoOf with the regenerated getTypeInfo; closed instances for the shipped scheme structs)",
          "codec (run-time generated struct types incl. layout-shaped ones; round trip, re-marshal stability; the in-domain direct check uses the theorem's hypothesis)", "codec model tied differentially; F12"),
  "C11": ("parse_lossless, parse_eq_ref (= split-based reference on every input), spans_exact, values_no_delim, groups_surface_once, parse_error_iff, lexer terminal token last, lexer_goroutine_facts (regenerated)",
          "T: the whole lexer and parser (ParseFlow/DispatchFlow: regenerated structured IR = model, for every input), goroutine-structure facts", "parse (all strings ≤ 7 over the delimiter alphabet + random; token streams via hook; goroutine count)", "the channel is modelled as a producer list (rendezvous); goroutine exit observed"),
  "C12": ("EndToEnd.newHash_canonical_⟨S⟩ (∀ request: output accepted by the independent recogniser with documented prefix, requested cost in canonical form, default-length salt over the alphabet, fixed-length digest = Key's result re-encoded), params_of_newHash_⟨S⟩, defaults_agree (Params and Check apply the same defaults: regenerated flow IR)",
-         "T: flow IR (evaluates to the pipeline model: FlowModel), shapes, constants · H: codec (KDF glue is regenerated: KdfIR/KdfIR2 *_key_tail_ir_eq_derive)",
+         "T: flow IR (evaluates to the pipeline model: FlowModel), shapes, constants (codec and KDF glue are regenerated too: TypeInfoIR/CodecIR/CodecIRU3, KdfIR/KdfIR2 *_key_tail_ir_eq_derive)",
          "scheme (independent regular expression, byte identity with model, BSDi integer coding, the exported cost bound, Check ⇔ Key(Params) on non-canonical spellings)", "model↔Go differential"),
  "C13": ("argSafe_/resultFresh_⟨S⟩ decided by the kernel on the regenerated slice-effect IR (stores through pointers included); C13Sound.argSafe_sound / resultFresh_sound / results_disjoint_across_calls (semantics: Spec/SliceSem.lean), argSafe_complete, pointsTo_exact",
          "T: the IR itself", "purity (sentinel buffers, option structs incl. rejected/defaulted values, repeated/interleaved calls, mutated results)", "gogen's slice-effect translator and its library-call table"),
@@ -71,7 +71,7 @@ ROWS = {
  "C19": ("secretSafe'_⟨S⟩ decided on the regenerated flow IR of every Check; secretSafe'_sound, mismatch_cost_independent_of_position/_of_key (cost semantics), ⟨S⟩_mismatch_cost", "T: flow IR",
          "flowcheck (names the offending statement)", "statement translator; machine-level constant time of subtle/encoders"),
  "C20": ("C10General.accepted_respell_all / TiWf.accepted_respell_of_typeInfoOf: for an ARBITRARY struct type that getTypeInfo accepts, with consistent options, every accepted string is a tolerated respelling of Marshal(value read); needs_* (exclusions necessary); Accept.accepts_only_respellings_⟨S⟩ for the ten layouts; parser lossless/exact (C11)",
-         "T: shapes, and the type-info layer (TypeInfoIR: getRawTypeInfo with its tag loop, field, normalize, cold getTypeInfo regenerated = fieldOpts/rawFields/resolveParam/normalizeLoop/typeInfoOf) and the Marshal side (CodecIR: Marshal, marshalValue, marshal, indirect, isEmpty regenerated = Codec.marshal, linked to the regenerated getTypeInfo) and most of the Unmarshal side (CodecIRU/U2: unmarshal on a value or prefix node = fieldText + storeValue for every field kind; the field loop = loopFields without grouped params; the end checks) · H: the grouped-param clause of the Unmarshal loop and its top-level assembly",
+         "T: shapes, and the type-info layer (TypeInfoIR: getRawTypeInfo with its tag loop, field, normalize, cold getTypeInfo regenerated = fieldOpts/rawFields/resolveParam/normalizeLoop/typeInfoOf) and the Marshal side (CodecIR: Marshal, marshalValue, marshal, indirect, isEmpty regenerated = Codec.marshal, linked to the regenerated getTypeInfo) and the Unmarshal side (CodecIRU/U2/U3: unmarshal_eq_model — the whole regenerated Unmarshal, prologue, HashPrefix, field loop with grouped params, end checks = Codec.unmarshal + finalVals; unmarshal_eq_model_typeInfoOf with the regenerated getTypeInfo; closed instances for the shipped scheme structs)",
          "codec (edit-distance-1 neighbourhoods, splices incl. duplicated parameters and wrap-around integers, short strings; accepted-but-unwritable values)", "codec model tied differentially; F10, F13, F14, F15"),
 }
 
@@ -184,12 +184,12 @@ functions or adding comments leaves the programs unchanged (checked for each tra
 | `argon2/argon2crypto` (purego path): `Key`, `initHash`, `initBlocks`, `processBlocks` + `processSegment` closure (go/WaitGroup pattern as task/join node, sequential schedule), `extractKey`, `indexAlpha`, `phi`, `blake2bHash`, `processBlock(XOR)`, `processBlockGeneric`, `blamkaGeneric` | Argon2 IR `A2IR` (typed words with wrap-around, heap with pointer aliasing) | `Props/Argon2IR.lean` (`key_ir_eq_model`, `key_ir_eq_rfc`) | C04, C09 |
 | `des/descrypt/des.go`: `permute816`, `permute1616`, `keySchedules`, `Encrypt` | DES IR (tables by name from the regenerated `Gen/Tables`) | `Props/DesIR.lean` (`encrypt_ir_eq_model`, `desPrims_spec`, `*_full`) | C03, C05 |
 | `hash/marshal.go`: `Marshal`, `marshalValue`, `marshal`, `indirect`, `isEmpty` | codec IR (on the type-info IR's heap; `reflect.Value` as operations over a value model) | `Props/CodecIR.lean` (`marshal_eq_model`), `CodecIRLink.lean` (`marshal_eq_model_typeInfoOf`) | C10, C20 |
-| `hash/unmarshal.go`: `Unmarshal`, `unmarshal`, `newUnmarshalError`, `unmarshalIndirect` (destination cells, parse nodes, stores through `reflect.Value`, `defer` lowered to an epilogue) | codec IR | `Props/CodecIRU.lean`, `CodecIRU2.lean`: `unmarshal_value_eq_model` / `unmarshal_prefix_eq_model` (every field kind), `step_eq_stepField`, `loop_eq_loopFields` (no grouped params), `after_loop_eq_model`; the whole `Unmarshal` runs against `Codec.unmarshal` + `finalVals` in 19 `#guard` examples | C10, C20 |
+| `hash/unmarshal.go`: `Unmarshal`, `unmarshal`, `newUnmarshalError`, `unmarshalIndirect` (destination cells, parse nodes, stores through `reflect.Value`, `defer` lowered to an epilogue) | codec IR | `Props/CodecIRU.lean`, `CodecIRU2.lean`, `CodecIRU3*.lean`: `unmarshal_value_eq_model` / `unmarshal_prefix_eq_model` (every field kind), `step_eq_stepField_general`, `loop_eq_loopFields_general` (grouped params included), `unmarshal_eq_model` (whole function on a zero destination = `Codec.unmarshal` + `finalVals`, or the model's error class), `unmarshal_eq_model_typeInfoOf`, closed instances `unmarshal_⟨scheme⟩_closed` | C10, C20, C06 |
 | `internal/hashutil`: `NewEncoding`, `Encode`, `Decode`, `IndexAnyInvalid`, `Rand`, package variables; `cryptoutil.Rand`; `sha1.randRounds` | stream IR + library description `miscLib` (crypto/rand as scripted entropy reader) | `Props/MiscIR.lean` | C15, C05 |
 | `hash/typeinfo.go`: the whole of `getTypeInfo` (warm + cold path; `typeCache.Load`/`LoadOrStore` as atomic steps) | type-info IR with a cache state (`Base/TIIRCache.lean`, conservative over `TIIR`) | `Props/TypeCacheIR.lean` (= `Model/TypeCache.lean` per call and per history; privacy; keying; interleavings) | C18, C08 |
 | constants, DES / permutation / alphabet tables, struct shapes and text codecs, `init` registrations, import / shared-state / goroutine-structure facts, index kernels (`indexAlpha`, `phi`, base64 shift/mask expressions, `randRounds`) | Lean definitions | used directly by the models | all |
 
-Still hand-written (tied by the correspondence suites only): the grouped-param clause of `Unmarshal`'s field loop and the assembly of its top level (`Model/Codec.lean`: `stepField` with an open group, `unmarshalTree`; the regenerated `Unmarshal` is run against the model on examples and the per-field and loop theorems are proved), the concurrency protocol of the registry (`Model/Conc.lean`, tied by measured protocol facts and the race detector), the text (un)marshalers of the scheme field types (recognised by strict pattern matching in `gogen`), and the hash/cipher primitives that live outside the repository (MD4, MD5, SHA-1/2, Blowfish, BLAKE2b: `Prim/`, validated differentially). Model limits the regenerated proofs exposed (all outside every property's domain, stated as hypotheses of the equality theorems): `decoder.Read` on a reader that answers `(0, nil)` forever (Go spins; the model's fuel runs out silently); `omitempty` on a field of a kind outside the documented ones (bool, float, map, interface …: Go's `isEmpty` knows them and omits an empty one, the model treats the field as rejected); a partially nil pointer chain `**T` (Go writes `p=`, the model reads `.nilPtr` as 'the field itself is nil'); `EncodedLen` beyond 2^60 and negative padding runes other than `NoPadding` (Go wraps / pads with `byte(r)`; the model's `Nat`/`Option UInt8` cannot say it); DES round counts ≥ 2^32 (not expressible by a Go caller).
+Still hand-written (tied by the correspondence suites only): the concurrency protocol of the registry (`Model/Conc.lean`, tied by measured protocol facts and the race detector), the text (un)marshalers of the scheme field types (recognised by strict pattern matching in `gogen`), and the hash/cipher primitives that live outside the repository (MD4, MD5, SHA-1/2, Blowfish, BLAKE2b: `Prim/`, validated differentially). Model limits the regenerated proofs exposed (all outside every property's domain, stated as hypotheses of the equality theorems): `decoder.Read` on a reader that answers `(0, nil)` forever (Go spins; the model's fuel runs out silently); `omitempty` on a field of a kind outside the documented ones (bool, float, map, interface …: Go's `isEmpty` knows them and omits an empty one, the model treats the field as rejected); a partially nil pointer chain `**T` (Go writes `p=`, the model reads `.nilPtr` as 'the field itself is nil'); `EncodedLen` beyond 2^60 and negative padding runes other than `NoPadding` (Go wraps / pads with `byte(r)`; the model's `Nat`/`Option UInt8` cannot say it); DES round counts ≥ 2^32 (not expressible by a Go caller).
 
 ### 0.2 Per property
 
@@ -296,6 +296,11 @@ committed to `/repo`. "missed before …" marks checks that were strengthened be
 after strengthening every change is reported by the check of its own property with a concrete
 failing input, except where the table says otherwise (changes whose effect is confined to another
 property's observable, and C19's, where the offending statement is the replay).
+The last column is the most recent regression run (`lib/seed_regress.sh`, every change against the
+quick check of its own property, after the function bodies of §0.1a had become regenerated): whether
+a proof obligation broke (`proof=broken`: the change touches code whose regenerated program is an
+obligation of that property), whether model and implementation disagreed (`correspondence=broken`),
+and the kind of the first concrete failing input.
 
 {chr(10).join(seed_rows)}
 
@@ -334,7 +339,7 @@ an unknown node. The interpreters are also run on concrete inputs (`#guard`) aga
 models and, by the agents who wrote them, against the real Go code.
 Correspondence: differential, seeded (`VERIF_SEED`, default 1), with the generator's distribution in
 the evidence. It now covers everything twice where a body is regenerated, and alone ties: the
-grouped-param clause and top level of `Unmarshal`, the registry's concurrency
+registry's concurrency
 protocol, the text (un)marshalers of the scheme field types.
 Modelled rather than verified, or only executed: `reflect`, `strconv`, `sync.Map`, goroutines /
 channels / WaitGroup, the Go memory model, `crypto/*` and x/crypto primitives (Lean copies in
